@@ -39,7 +39,7 @@ def run(r):
                       "no line number and no column above 65535 (fits16): PROVED for every input accepted by the size guard of `lex` (C19_guard_excludes_saturation); "
                       "the unguarded bookkeeping saturates (C19_saturation_refuted_pre)",
                       "segments are non-empty (segs_pos)", "the index discipline `disc` of the control flow (a token starts at or after the previous token's end and not after the current position)",
-                      "split-identifier arithmetic: fragments are consecutive single-char segments of the source (violated after `\\\\` escapes: finding escape-greek-split)"]
+                      "split identifiers (current code d7485e2): every token end is a position the lexer has been at, so the path is the primitive action sequence split_actions (the old arithmetic ASplit is kept only for the _pre records and excluded by split_free)"]
     if not r.harness(["c19"]):
         return
     r.proofs()
@@ -127,4 +127,4 @@ def run(r):
     r.coverage["distinct_nontrivial"] = len(set(c["src"] for c in cases if len(c["spans"]) >= 3))
     r.coverage["rule"] = ("inputs: random token soup over uiua's glyphs, ASCII primitive names and a fixed list of hard pieces (escapes, combining sequences, CR/CRLF, "
                           "multi-line strings, output comments, unterminated constructs, subscripts, `?` chains), mutated lines of /repo/tests and /repo/examples, "
-                          "preceded by a fixed regression corpus of 16 huge inputs around the 16-bit limits (9 that the guard must reject with the ordinary too-long error, 5 just inside the guard that must lex cleanly, 2 for the formatter output side: a 65535-character formatted line must be exact, a 65536-character one may only be clamped, never wrapped); non-trivial = at least 3 reported spans")
+                          "preceded by the 18 former failing inputs of the repaired defect classes (escape + split identifier, combining mark, end-of-line-comment glyph map; also the first tie cases) and by a fixed regression corpus of 16 huge inputs around the 16-bit limits (9 that the guard must reject with the ordinary too-long error, 5 just inside the guard that must lex cleanly, 2 for the formatter output side: a 65535-character formatted line must be exact, a 65536-character one may only be clamped, never wrapped); non-trivial = at least 3 reported spans")
